@@ -112,8 +112,18 @@ def run(chk):
         finally:
             sym._eval_dH_dQ, sym._eval_dH_dP = saved
 
-    def jac_of(out, evalQ, evalP):
+    def jac_of(out, evalQ, evalP, calls=None):
+        # ghost Hessian taken at the point the body ACTUALLY evaluates the gradient at (all calls must agree on it); the
+        # obligation is then decided for that body, whatever the point - it does not presuppose the effect contract
         args = list(evalQ) + list(evalP)
+        if calls:
+            pts = {tuple(c[1]) + tuple(c[2]) for c in calls}
+            if len(pts) != 1:
+                raise Refuted("dH/dQ and dH/dP are evaluated at different points: the sub-map is not the flow of one H",
+                              str(sorted(map(str, pts))))
+            args = list(pts.pop())
+            if any(a not in v for a in args):
+                raise Refuted("eval-point-not-a-coordinate", "gradient evaluated at a non-coordinate point: " + str(args))
         M = sp.zeros(12, 12)
         for r in range(12):
             for ci, var in enumerate(v):
@@ -194,7 +204,7 @@ def run(chk):
                 def go(st):
                     q = xarr(v)
                     getattr(sym, name)(q, X(d), "JAC", "CLMO")
-                    M = jac_of(vals(q), evalQ, evalP)
+                    M = jac_of(vals(q), evalQ, evalP, st.calls)
                     R = M.T * J * M - J
                     for i in range(12):
                         for j in range(12):
